@@ -181,22 +181,23 @@ OpMsgFds(s, op) == [OpMsg(op) EXCEPT !.nfd = op.nfd, !.fds = SubSeq(FdPool(s, op
 \* message per op (it cuts at the length the first 16 bytes announce), so the bytes are: not yet a whole message
 \* ("incomplete": the loader waits, nothing happens), something that can never become a valid message ("corrupt":
 \* the sender is disconnected, nothing else happens), or exactly one valid message ("msg": routed like any other).
-RawClass(s, b) ==
+RawClassL(s, b, L) ==
   IF Len(b) < 16 THEN "incomplete"
   ELSE LET fx == W!Fixed(b) IN
        IF ~fx.ok \/ fx.total > cfg.maxMsgSize THEN "corrupt"
        ELSE IF Len(b) < fx.total THEN "incomplete"
        ELSE IF Len(b) > fx.total THEN "badcut"
-       ELSE IF W!MessageDecX(b, Len(fdx.held[s]), TRUE).ok THEN "msg" ELSE "corrupt"
+       ELSE IF W!MessageDecXL(b, Len(fdx.held[s]), TRUE, L).ok THEN "msg" ELSE "corrupt"
+RawClass(s, b) == RawClassL(s, b, FALSE)
 U32T(t) == t[1] + 256 * t[2] + 65536 * t[3] + 16777216 * t[4]
 TopArgs(tree) == [i \in 1..Len(tree) |-> [t |-> tree[i].t, v |-> IF tree[i].t \in {cS, cO, cG} THEN tree[i].v ELSE <<>>]]
 RawM(s, b) ==
-  LET d == W!MessageDecX(b, Len(fdx.held[s]), TRUE)
+  LET d == W!MessageDecXL(b, Len(fdx.held[s]), TRUE, TRUE)
       m == d.m IN
   [ty |-> m.ty, snd |-> <<>>, dst |-> m.dst, ser |-> U32T(m.ser), rs |-> U32T(m.rs), path |-> m.path, ifc |-> m.ifc,
    mem |-> m.mem, err |-> m.err, sig |-> m.sig, args |-> TopArgs(m.body), fl |-> b[3], org |-> 0, cmp |-> "rawbody",
    nfd |-> d.nfd, fds |-> SubSeq(fdx.held[s], 1, d.nfd), unk |-> <<>>, ci |-> FALSE, tree |-> m.body, fsnd |-> m.snd]
-RawRepresentable(b) == LET m == W!MessageDecX(b, 16, TRUE).m IN m.ser[4] < 128 /\ m.rs[4] < 128
+RawRepresentable(b) == LET m == W!MessageDecXL(b, 16, TRUE, TRUE).m IN m.ser[4] < 128 /\ m.rs[4] < 128
 Nop == out' = <<>> /\ UNCHANGED <<cfg, cst, dying, uid, uname, everNames, queue, rules, pend, mon, fdx, act>>
 
 \* a client the daemon closed may never see the reply to its Hello although the Hello was processed: the name it
@@ -248,15 +249,21 @@ Apply0(s, op) ==
     [] op.k = "svc_exit" -> Plain(ChildExit(op.n, op.status, op.signaled))
     [] op.k = "big" -> Plain(Corrupt(s))
     [] op.k = "raw" ->
-         LET c == RawClass(s, op.b) IN
-         CASE c = "msg" -> /\ RawRepresentable(op.b)
-                           /\ LET m == RawM(s, op.b) IN
-                              \/ Plain(IF m.dst = BUS THEN DriverOther(s, m)
-                                       ELSE Send(s, m, SubSeq(fdx.held[s], m.nfd + 1, Len(fdx.held[s]))))
-                              \/ Dev("LocalReplyUnstamped", Dev_LocalReplyUnstamped(s, m, m.fsnd))
-           [] c = "corrupt" -> Plain(Corrupt(s))
-           [] c = "incomplete" -> Plain(Nop) /\ op.mute
-           [] OTHER -> FALSE
+         LET With(D, A) == A /\ devs' = devs \cup D
+             RawStep(c, D) ==
+               CASE c = "msg" -> /\ RawRepresentable(op.b)
+                                 /\ LET m == RawM(s, op.b) IN
+                                    \/ With(D, IF m.dst = BUS THEN DriverOther(s, m)
+                                               ELSE Send(s, m, SubSeq(fdx.held[s], m.nfd + 1, Len(fdx.held[s]))))
+                                    \/ /\ "LocalReplyUnstamped" \in DevSet
+                                       /\ With(D \cup {"LocalReplyUnstamped"}, Dev_LocalReplyUnstamped(s, m, m.fsnd))
+                 [] c = "corrupt" -> With(D, Corrupt(s))
+                 [] c = "incomplete" -> With(D, Nop) /\ op.mute
+                 [] OTHER -> FALSE IN
+         \/ RawStep(RawClass(s, op.b), {})
+         \* KNOWN DEFECT (deviation): DESTINATION / SENDER may be a unique name the specification does not allow
+         \/ /\ RawClassL(s, op.b, TRUE) # RawClass(s, op.b)
+            /\ "LenientUniqueName" \in DevSet /\ RawStep(RawClassL(s, op.b, TRUE), {"LenientUniqueName"})
     \* abrupt close: no farewell; the line must not have been dead already (the driver looks before closing)
     [] op.k = "aclose" -> Plain(ClientClose(s)) /\ ~op.waseof
     [] op.k = "dump" -> Plain(Dump(op))
